@@ -150,7 +150,7 @@ PROPS = {
              'arms) and format pieces (indent, name: value, name { }, enumerators by name, make_pair for bytes) agree '
              'between field_to_string/__str__ and generate_*_print/printer.hpp.',
              'string equality for all messages; floating point formatting',
-             'stream-state pairing on clang AST, escape-table agreement, format-literal agreement'),
+             'stream-state pairing on clang AST, escape-table agreement, format-literal agreement', claimed=True),
     'C19': P('byte order changes only scalar bytes; padding zero',
              'Non-interference of the byte order: the endianness parameter has no control or arithmetic dependents, is '
              'never reassigned and reaches only struct.pack/unpack format strings (Python) or the E template argument of '
